@@ -489,3 +489,210 @@ func unitC03conc(e common.Env, p *common.Part) {
 		}
 	}
 }
+
+// ---------------- C04 with very short protocol messages ----------------
+
+// tinyBackend: a protocol whose messages are 0..3 bytes long (one round; one broadcast and one point-to-point message per peer).
+type tinyBackend struct {
+	size    int
+	self    uint16
+	parties []uint16
+	send    func([]byte, bool, uint16)
+	mu      sync.Mutex
+	cond    *sync.Cond
+	got     map[string]int // "b/<from>" or "p/<from>"
+}
+
+func newTiny(size int, self uint16) *tinyBackend {
+	t := &tinyBackend{size: size, self: self, got: map[string]int{}}
+	t.cond = sync.NewCond(&t.mu)
+	return t
+}
+
+func (t *tinyBackend) payload(bcast bool) []byte {
+	b := []byte{0xA0, 0x11, 0x22}
+	if bcast {
+		b[0] = 0xB0
+	}
+	return b[:t.size]
+}
+
+func (t *tinyBackend) ClassifyMsg(m []byte) (uint8, bool, error) {
+	switch {
+	case len(m) == 0:
+		return 1, true, nil // size 0 is used with broadcasts only
+	case m[0] == 0xB0:
+		return 1, true, nil
+	case m[0] == 0xA0:
+		return 1, false, nil
+	}
+	return 0, false, fmt.Errorf("unknown message")
+}
+
+func (t *tinyBackend) Init(parties []uint16, threshold int, send func([]byte, bool, uint16)) {
+	t.parties = append([]uint16{}, parties...)
+	t.send = send
+}
+
+func (t *tinyBackend) OnMsg(m []byte, from uint16, bcast bool) {
+	t.mu.Lock()
+	if bcast {
+		t.got[fmt.Sprintf("b/%d", from)]++
+	} else {
+		t.got[fmt.Sprintf("p/%d", from)]++
+	}
+	t.cond.Broadcast()
+	t.mu.Unlock()
+}
+
+func (t *tinyBackend) complete() bool {
+	for _, p := range t.parties {
+		if p == t.self {
+			continue
+		}
+		if t.got[fmt.Sprintf("b/%d", p)] == 0 || (t.size > 0 && t.got[fmt.Sprintf("p/%d", p)] == 0) {
+			return false
+		}
+	}
+	return true
+}
+
+func (t *tinyBackend) run(ctx context.Context) error {
+	t.send(t.payload(true), true, 0)
+	if t.size > 0 {
+		for _, p := range t.parties {
+			if p != t.self {
+				t.send(t.payload(false), false, p)
+			}
+		}
+	}
+	stop := make(chan struct{})
+	defer close(stop)
+	go func() {
+		select {
+		case <-ctx.Done():
+			t.mu.Lock()
+			t.cond.Broadcast()
+			t.mu.Unlock()
+		case <-stop:
+		}
+	}()
+	t.mu.Lock()
+	defer t.mu.Unlock()
+	for !t.complete() {
+		if ctx.Err() != nil {
+			return ctx.Err()
+		}
+		t.cond.Wait()
+	}
+	return nil
+}
+
+func (t *tinyBackend) KeyGen(ctx context.Context) ([]byte, error) {
+	if err := t.run(ctx); err != nil {
+		return nil, err
+	}
+	return []byte("share-tiny"), nil
+}
+func (t *tinyBackend) SetShareData([]byte) error { return nil }
+func (t *tinyBackend) Sign(ctx context.Context, msg []byte) ([]byte, error) {
+	if err := t.run(ctx); err != nil {
+		return nil, err
+	}
+	return append([]byte("sig|"), msg...), nil
+}
+func (t *tinyBackend) ThresholdPK() ([]byte, error) { return []byte("tpk"), nil }
+
+// unitC04tiny: all-honest sessions whose protocol messages are 1, 2 and 3 bytes long.
+func unitC04tiny(e common.Env, p *common.Part) {
+	p.Rule = "all-honest key generation and signing sessions of real Loud / barrier / silent schemes, N = 2..4, random mode, with a backend whose messages are 1, 2 or 3 bytes long (one broadcast and one point-to-point message per peer; broadcasts of all parties are byte-identical); oracle: every call returns nil and every backend was handed every peer's broadcast and point-to-point message exactly once; distinct key = (size, N, mode, operation); non-trivial always"
+	idx := 0
+	// size 0 is not exercised: inside the orchestrator an EMPTY payload is what marks an acknowledgement (rbcMsg.Ack), and C03 demands
+	// that a hand-over is never empty; an empty protocol message is therefore outside the domain of C03/C04 (DESIGN.md section 4)
+	for _, size := range []int{1, 2, 3} {
+		for N := 2; N <= 4; N++ {
+			for _, mode := range []string{"loud", "barrier", "silent"} {
+				for _, sign := range []bool{false, true} {
+					idx++
+					if !e.Mine(idx) || p.ViolationCount() >= 3 {
+						continue
+					}
+					key := fmt.Sprintf("%d-byte messages N=%d %s sign=%v", size, N, mode, sign)
+					p.Begin(key)
+					var ids []uint16
+					for k := 1; k <= N; k++ {
+						ids = append(ids, uint16(k))
+					}
+					var bmu sync.Mutex
+					backs := map[uint16]*tinyBackend{}
+					mkb := func(node uint16) *tinyBackend {
+						b := newTiny(size, node)
+						bmu.Lock()
+						backs[node] = b
+						bmu.Unlock()
+						return b
+					}
+					attempt := func(timeout time.Duration) (map[uint16]error, time.Duration, time.Duration) {
+						bmu.Lock()
+						backs = map[uint16]*tinyBackend{}
+						bmu.Unlock()
+						c := newRCluster(cluster.Config{Map: identityMap(ids...), Silent: mode == "silent", Barrier: mode == "barrier", Threshold: N - 1,
+							KGF: func(node uint16) tss.KeyGenerator { return mkb(node) }, SF: func(node uint16) tss.Signer { return mkb(node) }}, e.Rng("c04tiny", idx), simnet.Uniform)
+						defer c.Stop()
+						for _, u := range ids {
+							c.Schemes[u].SetStoredData([]byte("share-tiny"))
+						}
+						res := c.run(sessCfg{Callers: ids, Sign: sign, Topic: "tiny-topic", Digest: []byte("0123456789abcdef0123456789abcdef"), Timeout: timeout})
+						return res.Errs, res.Elapsed, res.QuietAtFirstReturn
+					}
+					timeout := 4 * time.Second
+					errs, elapsed, quiet := attempt(timeout)
+					failed := func(errs map[uint16]error) string {
+						for _, u := range ids {
+							if errs[u] != nil {
+								return fmt.Sprintf("node %d: %v", u, errs[u])
+							}
+						}
+						return ""
+					}
+					what := failed(errs)
+					if what != "" && elapsed >= timeout && quiet < 2*time.Second {
+						errs, _, _ = attempt(4 * timeout)
+						what = failed(errs)
+						p.Count("watchdog_replays", 1)
+					} else if what != "" && elapsed >= timeout {
+						what += fmt.Sprintf(" (the network had been empty and silent for %v when the deadline fired)", quiet.Round(100*time.Millisecond))
+					}
+					if what == "" {
+						bmu.Lock()
+						for _, u := range ids {
+							b := backs[u]
+							if b == nil {
+								continue
+							}
+							b.mu.Lock()
+							for _, f := range ids {
+								if f == u {
+									continue
+								}
+								if n := b.got[fmt.Sprintf("b/%d", f)]; n != 1 && what == "" {
+									what = fmt.Sprintf("the %d-byte broadcast of party %d was handed over %d times at node %d", size, f, n, u)
+								}
+								if n := b.got[fmt.Sprintf("p/%d", f)]; size > 0 && n != 1 && what == "" {
+									what = fmt.Sprintf("the %d-byte point-to-point message of party %d was handed over %d times at node %d", size, f, n, u)
+								}
+							}
+							b.mu.Unlock()
+						}
+						bmu.Unlock()
+					}
+					p.Case(key, true)
+					p.Count("sessions", 1)
+					if what != "" {
+						p.Violate("totality/short-messages", key+": "+what, map[string]interface{}{"size": size, "n": N, "mode": mode, "sign": sign})
+					}
+				}
+			}
+		}
+	}
+}
